@@ -133,8 +133,8 @@ inline const std::unordered_map<std::string_view, Unit::SolidAngle> Spellings<Un
     {"arcminutes2",  Unit::SolidAngle::SquareArcminute},
     {"\"^2",         Unit::SolidAngle::SquareArcsecond},
     {"\"2",          Unit::SolidAngle::SquareArcsecond},
-    {"as",           Unit::SolidAngle::SquareArcsecond},
     {"as^2",         Unit::SolidAngle::SquareArcsecond},
+    {"as2",          Unit::SolidAngle::SquareArcsecond},
     {"arcs^2",       Unit::SolidAngle::SquareArcsecond},
     {"arcs2",        Unit::SolidAngle::SquareArcsecond},
     {"arcsec^2",     Unit::SolidAngle::SquareArcsecond},
